@@ -55,11 +55,17 @@ def execB (gh : Bool) : Block → St → St
   | .cons s r, st => execB gh r (execS gh s st)
 end
 
--- inference (repaired equations); ghosts are invisible to it
+-- a ghost write makes the (proof-only) analysis forget the field, unless it writes what is known to be there
+def forget (F : Facts) (fs : List (Field × Var)) : Facts := fun f =>
+  match fs.lookup f with
+  | some y => if F f = some y then F f else none
+  | none => F f
+
+-- inference (repaired equations) extended with `forget` at ghosts
 mutual
 def knownS : Stmt → Facts → Facts
   | .setup fs, F => upd F fs
-  | .ghost _, F => F
+  | .ghost fs, F => forget F fs
   | .launch, F => F
   | .pure _ _ _, F => F
   | .call _, _ => fun _ => none
@@ -79,7 +85,7 @@ def Agree (F : Facts) (r r' : Regs) : Prop := ∀ f x, F f = some x → r f = r'
 mutual
 def okS : Stmt → Facts → Prop
   | .setup _, _ => True
-  | .ghost fs, F => ∀ p ∈ fs, F p.1 = none ∨ F p.1 = some p.2   -- unknown, or a write of what is there already
+  | .ghost _, _ => True
   | .launch, F => ∀ f ∈ allF, (F f).isSome
   | .pure _ _ _, _ => True
   | .call _, _ => True
@@ -101,7 +107,7 @@ theorem meet_le_right {a b : Facts} {f x} (h : meet a b f = some x) : b f = some
 mutual
 theorem localS : (s : Stmt) → ∀ (F F' : Facts) (f : Field), F f = F' f → knownS s F f = knownS s F' f
   | .setup fs, F, F', f, h => by simp only [knownS, upd]; split <;> simp_all
-  | .ghost _, F, F', f, h => by simpa [knownS] using h
+  | .ghost fs, F, F', f, h => by simp only [knownS, forget, h]
   | .launch, F, F', f, h => by simpa [knownS] using h
   | .pure _ _ _, F, F', f, h => by simpa [knownS] using h
   | .call _, F, F', f, h => by simp [knownS]
@@ -158,7 +164,13 @@ theorem varsS : (s : Stmt) → ∀ (F : Facts) f x, knownS s F f = some x → F 
         obtain ⟨l1, l2, hl, _⟩ := List.lookup_eq_some_iff.mp hy
         exact ⟨(f, y), by simp [hl], by simpa using h⟩
       · left; exact h
-  | .ghost _, F, f, x, h => by left; simpa [knownS] using h
+  | .ghost fs, F, f, x, h => by
+      left; simp only [knownS, forget] at h
+      split at h
+      · split at h
+        · exact h
+        · simp at h
+      · exact h
   | .launch, F, f, x, h => by left; simpa [knownS] using h
   | .pure _ _ _, F, f, x, h => by left; simpa [knownS] using h
   | .call _, F, f, x, h => by simp [knownS] at h
@@ -210,22 +222,29 @@ theorem simS : (st : Stmt) → wfS st → ∀ (F : Facts) (s s' : St), okS allF 
         cases hl : fs.lookup f with
         | some y => simp only [hl]
         | none => simp only [hl] at hx ⊢; exact h.agree f x hx
-  | .ghost fs, _, F, s, s', hok, h, _ => by
-      simp only [okS] at hok
+  | .ghost fs, _, F, s, s', _, h, _ => by
+      have hle : ∀ f x, forget F fs f = some x → F f = some x := by
+        intro f x hx; simp only [forget] at hx
+        split at hx
+        · split at hx
+          · exact hx
+          · simp at hx
+        · exact hx
       refine ⟨?_, ?_, h.env, h.tr⟩
-      · intro f x hx; simp only [knownS] at hx; simpa [execS] using h.sound f x hx
+      · intro f x hx; simp only [knownS] at hx; simpa [execS] using h.sound f x (hle f x hx)
       · intro f x hx
         simp only [knownS] at hx
+        have hF := hle f x hx
         simp only [execS, if_true, Bool.false_eq_true, if_false, setRegs]
         cases hl : fs.lookup f with
-        | none => simp only [hl]; exact h.agree f x hx
+        | none => simp only []; exact h.agree f x hF
         | some y =>
-          simp only [hl]
-          obtain ⟨l1, l2, hm, _⟩ := List.lookup_eq_some_iff.mp hl
-          rcases hok (f, y) (by simp [hm]) with hn | hs
-          · simp only at hn; rw [hn] at hx; cases hx
-          · simp only at hs; rw [hs] at hx; cases hx
-            rw [← h.env]; exact h.sound f x hs
+          simp only []
+          simp only [forget, hl] at hx
+          split at hx
+          · rename_i hy; rw [hy] at hx; cases hx
+            rw [← h.env]; exact h.sound f x hF
+          · simp at hx
   | .launch, _, F, s, s', hok, h, _ => by
       simp only [okS] at hok
       refine ⟨fun f x hx => by simpa [execS] using h.sound f x (by simpa [knownS] using hx),
@@ -305,8 +324,8 @@ theorem simB : (b : Block) → wfB b → ∀ (F : Facts) (s s' : St), okB allF b
 end
 #print axioms simB
 
-/-- Extra register writes to fields nothing is known about (or of the value that is there already) never
-    change what any launch observes, for any program in which every launch is total. -/
+/-- Extra register writes never change what any launch observes, provided every launch is still total for the
+    analysis that *forgets* a field at every extra write (unless the write stores what is known to be there). -/
 theorem ghost_writes_unobservable (b : Block) (hwf : wfB b) (hok : okB allF b (fun _ => none)) (s : St) :
     (execB allF true b s).tr = (execB allF false b s).tr :=
   ((simB allF b hwf _ s s hok ⟨fun f x h => by simp at h, fun f x h => by simp at h, rfl, rfl⟩
